@@ -243,6 +243,7 @@ Scenario generate(const std::string& prop, uint64_t seed, const std::string& tie
         else if (prop == "C09") { pm = 70; pp = 15; ph = 15; }
         else if (prop == "C12") { pm = 70; pp = 30; ph = 0; }
         else if (prop == "C13") { pm = 60; pp = 20; ph = 20; }
+        else if (prop == "C18" && sc.kernel == "counter_weight") { pm = 75; pp = 25; ph = 0; }   // periodic: the regular executor's and the top-tree algorithm's counters
         const int x = int(r.below(100));
         sc.ordering = x < pm ? "morton" : (x < pm + pp ? "periodic" : "hilbert");
         (void)ph;
